@@ -207,10 +207,32 @@ static const char *evname(int curr)
 static MPT_STRUCT(node) root;
 static int hooks_installed;
 
+/* one parse with a long value before accounting starts: lazy one-time
+ * initialisations of the library (type tables) are not leaks */
+static void warm_up(void)
+{
+	static const MPT_STRUCT(parser_context) init = MPT_PARSER_INIT;
+	static const MPT_STRUCT(node) ninit = MPT_NODE_INIT;
+	MPT_STRUCT(parser_context) ctx = init;
+	MPT_STRUCT(node) tmp = ninit;
+	struct source src;
+	uint8_t *text = (uint8_t *) malloc(400);
+	memset(text, 'x', 400);
+	memcpy(text, "a{b=", 4);
+	text[398] = '\n'; text[399] = '}';
+	memset(&src, 0, sizeof(src));
+	src.data = text; src.len = 400;
+	ctx.src.getc = src_getc;
+	ctx.src.arg = &src;
+	(void) mpt_parse_node(&tmp, &ctx, 0);
+	mpt_node_clear(&tmp);
+	free(text);
+}
 static void drv_reset(void)
 {
 	static const MPT_STRUCT(node) init = MPT_NODE_INIT;
 	if (!hooks_installed) {
+		warm_up();
 		__sanitizer_install_malloc_and_free_hooks(hook_malloc, hook_free);
 		hooks_installed = 1;
 	}
